@@ -10,6 +10,34 @@ CHECKS = {
             "TLC checks exhaustively, for every byte string of <= K markup fragments (plus seeds) under a covering set / all 128 configurations, that the call-by-call reader machine returns exactly the events of the declarative lexical grammar; every such behaviour (input, config, expected event/position after each call) is then executed on the real Reader (from_reader and from_str, with and without the encoding feature) and compared field by field; traces recorded from the real reader on generated, mutated, random and corpus documents are validated against the same spec by TLC.",
             "Bounded scope for the exhaustive legs (K fragments); recorded traces are samples. The code is bound by observation at call returns, not by proof. TLC and the harness projection (harness/src/obs.rs) are trusted.",
             "DESIGN.md section 6 C01"),
+    "C02": ("TLA+ spec of the buffered XmlSource with one action per fill_buf (Source.tla) model-checked against the one-chunk semantics for every cut sequence; replay on BufRead/AsyncBufRead sources under all cuts; trace validation",
+            "TLC explores Source.tla - the chunked scanner machine with its carries (buf, read counter, quote state, '?' flag, DOCTYPE balance, split-terminator cases) - for every input of <= K fragments under EVERY way of cutting it into pieces (cut chosen at each refill) and checks at every call return that event, payload, error, offset and parse state equal the one-chunk semantics, plus inductive-style invariants (buf = bytes of the item, carry = declarative scanner state). TLC-generated behaviours are executed on the real buffered and tokio async readers under all 2^(n-1) cuts (short inputs) / sizes 1,2,3,7+random (long) and three Pending patterns; recorded traces over all source kinds are validated by TLC.",
+            "BOM/encoding sniff excluded as the property allows (first piece >= 4 bytes). Bounded scope; code bound by observation.",
+            "DESIGN.md section 6 C02"),
+    "C03": ("TLA+ reader spec with totality/position invariants model-checked over markup and byte-class alphabets; replay with every payload accessor under catch_unwind; random-byte trace validation",
+            "TLC checks on the reader machine that every call returns an event or an error, Eof and syntax errors are final, the number of calls is <= len+3, positions are monotone, bounded by the input length and error_position <= buffer_position - for all inputs of <= K fragments over a markup alphabet and over a byte-class alphabet (NUL, 0x80, 0xFF ...), all configurations. Every behaviour is executed on the real reader (slice, str, chunked, async; with and without the encoding feature) with every payload accessor exercised under catch_unwind; random 256-value inputs, mutated and corpus documents with configuration flips are recorded and validated; a panic is data and is rejected.",
+            "A concrete panic is found by running the code; the spec supplies the result domain, the shapes and the invariants. Bounded scope; samples beyond.",
+            "DESIGN.md section 6 C03"),
+    "C04": ("TLA+ spec of call histories (Read / config flip / skip) model-checked against a history-independent reference computed from the TRUE nesting; histories replayed on the real reader; trace validation with random flips",
+            "TLC explores MC_ReaderOps: tag sequences over names a/ab/b, '</a >', '<a/>', look-alike end tags, under all 16 settings of the four related switches and toggles of them at any point of the call history, and checks that every result equals the documented transformation under the configuration in force NOW judged against the true nesting of the consumed prefix, and that the machine's stack equals that nesting. Every generated history is replayed on the real reader (slice/str/buffered/async) including config_mut() flips; traces with random flips are validated by TLC.",
+            "Bounded scope (L fragments, <= 2 flips exhaustively; random flips in traces).",
+            "DESIGN.md section 6 C04"),
+    "C08": ("TLA+ reader spec with tiling invariant and composed writer rendering model-checked; positions and read-then-write bytes replayed on the real reader/writer; corpus trace validation",
+            "TLC checks that with trimming/expansion off the bytes between consecutive positions are exactly open delimiter + payload + close delimiter of the returned event (DOCTYPE up to keyword case/spacing), that spans tile the input and the final position is its length. TLC emits for every behaviour the positions and the concatenated rendering of all events; the harness compares buffer_position after every call and the bytes produced by Writer::write_event on slice and chunked sources. Corpus and generated traces are validated by TLC.",
+            "Bounded scope; Writer::write_event is specified only for events read from the input (C09 covers constructors).",
+            "DESIGN.md section 6 C08"),
+    "C12": ("TLA+ spec of read_to_end/read_text (loop over the reader machine) model-checked against a declarative tree-based reference; histories with skip calls replayed on all read_to_end variants; trace validation",
+            "TLC explores documents of <= L tag-level fragments (repeated names, <a/>, '</a >', end-tag look-alikes inside comment/CDATA, truncated documents) x trim/expand configurations x skip after any Start (and flips), and checks the returned span, the position after the call, the failure kinds and the span delimiters against a reference derived from the declarative event stream. Every history is replayed on read_to_end, read_to_end_into, read_to_end_into_async and read_text with config() read back after success and failure; traces with random skip calls are validated by TLC.",
+            "Skip calls are issued only right after a Start event (the documented precondition). Bounded scope.",
+            "DESIGN.md section 6 C12"),
+    "C16": ("TLA+ spec: machine stream under a configuration = documented Transform of the neutral grammar stream, model-checked for all 128 configurations; replay on the real reader; trace validation",
+            "TLC checks for every input of <= K fragments and all 128 switch combinations (K small) / a pairwise-covering set (K larger) that the reader machine's events and positions equal Transform(cfg, neutral stream), where Transform states only the documented effect of each switch. The same behaviours are executed on the real reader and compared; traces with random configurations are validated. The one recorded deviation (empty Text with trim_text_end only, C16-1) is a named deviation action of the spec and is reported as KNOWN-FINDING.",
+            "Bounded scope. Known finding C16-1 is accepted only in its exact recorded shape.",
+            "DESIGN.md section 6 C16"),
+    "C18": ("TLA+ Source.tla with Interrupted/Pending stutters and an I/O error at any refill model-checked; every refill index replayed as fault point on sync and async sources; trace validation with fault records",
+            "TLC explores Source.tla with one non-interrupt I/O error allowed at any refill of any cut sequence and checks that the error surfaces as Io in a call that needed bytes beyond those delivered, with all earlier calls equal to the fault-free semantics. For every generated behaviour and five cut patterns the harness injects, at EVERY refill index, Interrupted x1/x2 (run must be identical) and a hard error (prefix + Io in the call that met it) on BufRead and AsyncBufRead sources; traces with random multi-interrupt patterns and hard errors are validated by TLC (rule: Need > delivered).",
+            "Behaviour of calls after the failing call is not constrained by the property (tagged I).",
+            "DESIGN.md section 6 C18"),
 }
 
 NOT_YET = "check under construction in this revision (planned: TLA+ spec + TLC + conformance replay, see DESIGN.md section 6)"
